@@ -83,7 +83,11 @@ def tag_tables(ctx, cr):
     # both loaders take the SAME decision "is this tag an intrinsic short form": each decision point consults the same set of tables
     # (directly or through a local helper) and translates with short_form_to_long.  A loader that looks at one table only loads
     # `!Join x` / `!Ref [p, q]` as the bare payload where the other loader expands it.
-    users = ["rules::libyaml::loader::handle_single_value_func_ref", "rules::libyaml::loader::handle_sequence_value_func_ref", "rules::values::handle_tagged_value"]
+    # decision points = the non-test functions that translate a tag with short_form_to_long (found, not named: helpers may be merged or split)
+    users = sorted(k for k, fx in cr.fns.items() if k.startswith("rules::") and not fx.get("file", "").endswith("_tests.rs") and k != "rules::short_form_to_long"
+                   and any(t["fn"].get("key") == "rules::short_form_to_long" for bi, t in M.iter_calls(fx)))
+    if not any("libyaml" in k for k in users) or not any(k.startswith("rules::values::") for k in users):
+        ctx.lost(rule, rule + ":user:floor", "decision points found: %s (expected at least one in the libyaml loader and one in rules::values)" % users)
     consulted = {}
     for k in users:
         f = cr.fns.get(k)
@@ -106,12 +110,16 @@ def tag_tables(ctx, cr):
                     translates = True
                 if t["fn"].get("local") and c.startswith("rules::") and len(seenf) < 6 and ("func_ref" in c or "closure" in c):
                     work.append(c)
+        if not tabs:
+            # translates a tag that an earlier decision point already accepted (the loader closing a tagged sequence): not a decision
+            ctx.note_analysed("tag_translation_without_decision", k)
+            continue
         consulted[k] = tabs
         ctx.ob(rule, "%s:user:%s:translates" % (rule, k.split("::")[-1]), translates, "must translate the tag with short_form_to_long", fn=f)
     # ... and path by path: the tag is expanded iff it is in SINGLE_VALUE_FUNC_REF or in SEQUENCE_VALUE_FUNC_REF, whatever the payload
     for k in users:
         f = cr.fns.get(k)
-        if not f:
+        if not f or k not in consulted:
             continue
         rets = []
 
@@ -148,6 +156,8 @@ def tag_tables(ctx, cr):
             sg_, sq_, ex = mon.get("SINGLE"), mon.get("SEQUENCE"), bool(mon.get("expand"))
             if ex and not (sg_ is True or sq_ is True):
                 bad.add("expands a tag that is in neither table (single=%s sequence=%s)" % (sg_, sq_))
+            if not ex and sg_ is None and sq_ is None:
+                continue            # no tag on this path: nothing was decided
             if not ex and not (sg_ is False and sq_ is False):
                 bad.add("leaves the tag unexpanded without having found it absent from BOTH tables (single=%s sequence=%s): the decision depends on the kind of the payload" % (sg_, sq_))
         ctx.ob(rule, "%s:user:%s:decision" % (rule, k.split("::")[-1]), bool(rets) and not bad, "; ".join(sorted(bad)) or "%d paths: expanded iff in SINGLE or SEQUENCE table" % len(rets), fn=f)
@@ -428,6 +438,20 @@ def serde_conversion(ctx, cr):
                     return [(("bool", True), mon.set(num="i64")), (("bool", False), mon)]
                 if p.endswith("Number::is_u64"):
                     return [(("bool", True), mon.set(num="u64")), (("bool", False), mon.set(num="f64"))]
+                # the same three-way classification written with the as_* accessors (`if let Some(i) = num.as_i64()`): as_x() is Some
+                # exactly when is_x() holds (serde_json / serde_yaml)
+                if p.endswith("Number::as_i64"):
+                    if mon.get("num") == "i64":
+                        return [(("enum", ai.OPTION, 1, (("sym", "I64"),)), mon)]
+                    if mon.get("num") in ("u64", "f64"):
+                        return [(("enum", ai.OPTION, 0, ()), mon)]
+                    return [(("enum", ai.OPTION, 1, (("sym", "I64"),)), mon.set(num="i64")), (("enum", ai.OPTION, 0, ()), mon)]
+                if p.endswith("Number::as_u64"):
+                    if mon.get("num") == "u64":
+                        return [(("enum", ai.OPTION, 1, (("sym", "U64"),)), mon)]
+                    if mon.get("num") in ("i64", "f64"):
+                        return [(("enum", ai.OPTION, 0, ()), mon)]
+                    return [(("enum", ai.OPTION, 1, (("sym", "U64"),)), mon.set(num="u64")), (("enum", ai.OPTION, 0, ()), mon.set(num="f64"))]
                 if p == "std::vec::Vec::push":
                     return [(("tuple", ()), mon.set(pushes=min(2, mon.get("pushes", 0) + 1)))]
                 if p.endswith("Map::insert") or p.endswith("IndexMap::insert"):
